@@ -214,6 +214,7 @@ def c14(ctx):
     RK.rule_r23(ctx, prog, [b for b in all_roots(prog) if "maybe_nan::MaybeNanExt" in b.key])
     RR30.rule_r30_delegating(ctx, prog, only={("MaybeNanExt", m) for m in ("fold_skipnan", "indexed_fold_skipnan", "fold_axis_skipnan", "map_axis_skipnan_mut")})
     RR30.rule_r30_captured_index(ctx, prog)
+    RR30.rule_must_pass_through(ctx, prog, "MaybeNanExt", "visit_skipnan", "for_each")
     nd = RX.rule_r7_direction(ctx, prog, RX.SKIPNAN)
     ctx.floor("R7", nd, 4, "direction table rows (skip-NaN extrema)")
     for nme in ("argmin_skipnan", "argmax_skipnan"):
@@ -390,6 +391,7 @@ def c07(ctx):
     RT.rule_c07(ctx, prog)
     RT.rule_moment_shift(ctx, prog)
     RT.rule_moment_results(ctx, prog)
+    RT.rule_moments_vector(ctx, prog)
     return dict(
         level="other",
         explanation="(R19) the loop of inner_weighted_var is extracted from MIR as the recurrence W'=W+w, m'=m+(w/W')(x−m), "
@@ -432,6 +434,7 @@ def c18(ctx):
             ("SummaryStatisticsExt", "weighted_mean_axis"), ("SummaryStatisticsExt", "kurtosis"), ("SummaryStatisticsExt", "skewness")}
     n, e = RG.rule_r6(ctx, prog, only=only)
     ctx.floor("R6", n, 8, "delegating routines in the decision table")
+    RR30.rule_r30_delegating(ctx, prog, only={("QuantileExt", "quantiles_axis_mut"), ("Quantile1dExt", "quantiles_mut")})
     RT.rule_c18_quantiles(ctx, prog)
     RS.rule_r12_callsites(ctx, prog)
     RT.rule_c18_moments(ctx, prog)
@@ -495,6 +498,7 @@ def c01(ctx):
     ctx.floor("R9", len(pairs), 2, "zips in quantile routines")
     only = {("QuantileExt", "quantiles_axis_mut"), ("QuantileExt", "quantile_axis_mut"), ("Quantile1dExt", "quantile_mut"), ("Quantile1dExt", "quantiles_mut")}
     RG.rule_r6(ctx, prog, only=only)
+    RR30.rule_r30_delegating(ctx, prog, only={("QuantileExt", "quantiles_axis_mut"), ("Quantile1dExt", "quantiles_mut")})
     RR.rule_r26_ranges(ctx, prog)
     RR.rule_c19_indexes(ctx, prog)
     # the neighbours looked up are the order statistics: bulk selection (proved, see C02) on the partition contract
